@@ -189,6 +189,28 @@ impl BoardRef {
         }
     }
 
+    /// Bits no statement pins, adopted from the tree right after the port write that may have moved
+    /// them (narrowly: only the outcomes a reading of the documentation allows):
+    /// * a UOR write and the status bits of pins configured as *input*: the externally applied
+    ///   level is kept, or the written bit is taken over;
+    /// * the source flag at the writes that delete the interrupt flip-flop (ICR write, write to
+    ///   0xF3): it stays, or is deleted along with the flip-flop.
+    pub fn adopt_after_write(&mut self, addr: u8, byte: u8, before: &BoardRef, sut_dasr: u8, sut_daisr: u8) {
+        if addr == 0xF2 && byte >> 6 == 0 {
+            for i in 0..3 {
+                if !self.uio_out[i] {
+                    let sut = sut_dasr & DASR_UIO[i] != 0;
+                    if sut == before.uio[i] || sut == (byte & (1 << i) != 0) {
+                        self.uio[i] = sut;
+                    }
+                }
+            }
+        }
+        if ((addr == 0xF2 && byte >> 6 == 3) || addr == 0xF3) && self.source_flag && sut_daisr & DAISR_SOURCE == 0 {
+            self.source_flag = false;
+        }
+    }
+
     /// what a master reset / program load does to the board (C07 statement)
     pub fn master_reset(&mut self) {
         self.do1 = 0;
